@@ -23,6 +23,33 @@ def _name_from_source(n):
         return '?'
 
 
+def _explicit_template_args(callee):
+    """`<…>` written at the end of a callee (`Impl<true, false>`, `this->template SetResult<true>`), normalised; '' if none.
+    Seeded change C06-8 differed from the original only in such an argument."""
+    try:
+        t = ''.join(A.text(A.strip(callee)).split())
+    except Exception:
+        return ''
+    if not t.endswith('>') or t.endswith('->') or t.endswith('>>=') :
+        return ''
+    depth = 0
+    for i in range(len(t) - 1, -1, -1):
+        c = t[i]
+        if c == '>':
+            depth += 1
+        elif c == '<':
+            depth -= 1
+            if depth == 0:
+                head = t[:i]
+                # the `<` must follow an identifier (a template name), not an operator
+                if head and (head[-1].isalnum() or head[-1] == '_'):
+                    return t[i:]
+                return ''
+        elif c in ';{}':
+            return ''
+    return ''
+
+
 def expr(n):
     n = A.strip(n)
     k = n.get('kind')
@@ -71,6 +98,8 @@ def expr(n):
         return '(' + expr(ks[0]) + ' ? ' + expr(ks[1]) + ' : ' + expr(ks[2]) + ')'
     if k in ('CallExpr', 'CXXMemberCallExpr', 'CXXOperatorCallExpr'):
         callee = expr(ks[0]) if ks else '?'
+        if ks and k != 'CXXOperatorCallExpr' and not callee.endswith('>'):
+            callee += _explicit_template_args(ks[0])
         args = [expr(a) for a in ks[1:] if A.strip(a).get('kind') != 'CXXDefaultArgExpr']
         return callee + '(' + ', '.join(args) + ')'
     if k in ('CXXStaticCastExpr', 'CXXReinterpretCastExpr', 'CXXConstCastExpr', 'CXXFunctionalCastExpr',
